@@ -300,7 +300,12 @@ impl ImmutContext<'_> {
                     break;
                 }
                 Symbol::Nonterminal(name) => {
-                    let nonterminal_first_set = self.first_sets.get(&name).unwrap();
+                    // A nonterminal without any rule has no entry:
+                    // its first set is empty and it is not nullable.
+                    let Some(nonterminal_first_set) = self.first_sets.get(&name) else {
+                        contains_epsilon = false;
+                        break;
+                    };
                     terminals.extend(nonterminal_first_set.terminals.iter().cloned());
 
                     if !nonterminal_first_set.contains_epsilon {
